@@ -31,7 +31,7 @@ def generator_checks(c, api, t, tags, rng_seed=0):
     dims = list(t.row_dims)
     n = int(np.prod(dims, dtype=np.int64))
     scale = max(float(np.max(np.abs(cr))) for cr in t.cores) ** 1
-    if n <= 2 ** 17:
+    if n <= 2 ** 20:
         cs = col_sums_tt(t.cores)
         sc = 1.0
         for cr in t.cores:
